@@ -268,7 +268,7 @@ func c13Client(c *ev.Ctx) {
 		var err error
 		done := make(chan struct{})
 		go func() { cl, err = p9.NewClient(fs.C, p9.WithMessageSize(cf.req)); close(done) }()
-		if out, dump := quiesce.Await(done, 60*time.Second); out != quiesce.CondMet {
+		if out, dump := quiesce.Await(done, wd); out != quiesce.CondMet {
 			hang(c, out, dump, "C13:cli:NewClient-hangs", cf)
 			fs.Shutdown()
 			continue
@@ -314,7 +314,7 @@ func c13Client(c *ev.Ctx) {
 			f.GetXattr("user.big")
 			f.Close()
 		}()
-		if out, dump := quiesce.Await(done, 120*time.Second); out != quiesce.CondMet {
+		if out, dump := quiesce.Await(done, 2*wd); out != quiesce.CondMet {
 			hang(c, out, dump, "C13:cli:call-hangs", cf)
 			fs.Shutdown()
 			continue
